@@ -86,7 +86,7 @@ def known_findings():
 
 def coq_build():
     """full .vo build of the development; returns (ok, log)"""
-    code, out = sh('cd coq && ([ -f Makefile ] || coq_makefile -f _CoqProject -o Makefile >/dev/null) && timeout 3000 make -j16 2>&1', timeout=3100)
+    code, out = sh('cd coq && ([ -f Makefile ] && [ Makefile -nt _CoqProject ] || coq_makefile -f _CoqProject -o Makefile >/dev/null) && timeout 3000 make -j16 2>&1', timeout=3100)
     return code == 0, out
 
 FORBIDDEN = re.compile(r'\b(Admitted|admit|Axiom|Axioms|Parameter|Parameters|Conjecture|Hypothesis|Variable|Variables|Hypotheses)\b|Unset Guard|bypass_check|Admit Obligations|-type-in-type|impredicative-set')
@@ -104,6 +104,12 @@ def audit(prop, theorems):
             if m:
                 # Context/Variable inside a Section are fine: we only allow `Context`
                 problems.append(f'{os.path.basename(f)}: forbidden token {m.group(0)!r}: {line.strip()[:80]}')
+    # every source file of the development is part of the project (a file compiled by hand would
+    # make the build depend on a stale .vo)
+    listed = set(open(os.path.join(ROOT, 'coq', '_CoqProject')).read().split())
+    for f in sorted(glob.glob(os.path.join(ROOT, 'coq', '*.v'))):
+        if os.path.basename(f) not in listed:
+            problems.append(f'{os.path.basename(f)} is not listed in _CoqProject')
     pf = os.path.join(ROOT, 'coq', f'Prop_{prop}.v')
     assumptions = {}
     if not os.path.exists(pf):
